@@ -63,9 +63,16 @@ def check_scenario(sc, res: Result, work: Work, rng, max_all=400, extra_random=3
         res.violation(f"scenario {name} ({sc.describe}): result {ref} but every occurrence paired with its own value gives {sc.expected}",
                       dict(case0, kind="pairing"))
         return
+    obs_problem = observation_mismatch(labels, started)
+    if obs_problem:
+        res.violation(f"scenario {name} ({sc.describe}): {obs_problem}", dict(case0, kind="observation"))
+        return
+    ahb.use_provider(sc.evaluators)
     if sorted(started) != sorted(labels):
-        res.violation(f"scenario {name}: the awaitables started by the code {sorted(started)} are not the ones the orchestration model derives "
-                      f"{sorted(labels)}", dict(case0, kind="plan"))
+        # the code starts other awaitables than the orchestration model derives (e.g. after a refactoring of the gathers): that alone is no
+        # violation of the property - explore the real schedules without the specification's guidance
+        res.coverage.setdefault("plan_divergences", []).append({"plan": name, "model": sorted(labels), "code": sorted(started)})
+        free_exploration(sc, res, rng, kind, ref, labels, case0, n=max(60, extra_random * 3))
         return
     npaths = GT.count_paths(g, max_all)
     if npaths <= max_all:
@@ -76,7 +83,7 @@ def check_scenario(sc, res: Result, work: Work, rng, max_all=400, extra_random=3
         mode = "transition-cover+random"
     res.coverage.setdefault("plans", []).append({"plan": name, "awaitables": len(labels), "settled_states": len(g),
                                                  "interleavings": npaths if npaths <= max_all else f">{max_all}", "schedules_driven": len(paths), "mode": mode})
-    ahb.use_provider(sc.evaluators)
+    diverged = []
 
     async def run_all():
         for path in paths:
@@ -88,14 +95,92 @@ def check_scenario(sc, res: Result, work: Work, rng, max_all=400, extra_random=3
             try:
                 k, r = await GT.drive(sc.factory, path, exp)
             except GT.ConformanceFailure as e:
-                res.violation(f"scenario {name} ({sc.describe}), schedule {path}: {e}", dict(case0, kind="pending", schedule=path, step=e.step))
+                diverged.append({"plan": name, "schedule": path, "step": e.step, "code_pending": sorted(e.real), "model_pending": sorted(e.expected)})
                 return
             got = sc.project(r) if k == "ok" else f"{type(r).__name__}: {r}"
             if (k, got) != (kind, ref):
                 res.violation(f"scenario {name} ({sc.describe}): under the completion order {path} the result is {got}, "
                               f"when nothing yields it is {ref}", dict(case0, kind="result", schedule=path))
                 return
+            p2 = observation_mismatch(labels, list(GT.G.started))
+            if p2:
+                res.violation(f"scenario {name} ({sc.describe}), completion order {path}: {p2}", dict(case0, kind="observation", schedule=path))
+                return
         if paths:
             res.sample({"plan": name, "what": sc.describe, "one_schedule": paths[len(paths) // 2], "result": str(ref)[:200]}, limit=8)
+
+    asyncio.run(run_all())
+    if diverged:
+        # the real pending set differs from the model's at some step: the orchestration model does not describe this code; that is not by
+        # itself a violation of C12/C15, so the schedules are explored on the real code directly
+        res.coverage.setdefault("plan_divergences", []).append(diverged[0])
+        free_exploration(sc, res, rng, kind, ref, labels, case0, n=max(60, extra_random * 3))
+
+
+def _strip(label):
+    """'fc:901@a1#2' -> (('fc', '901'), 'a1')"""
+    base = label.rsplit("#", 1)[0]
+    head, _, tag = base.partition("@")
+    k, _, key = head.partition(":")
+    return (k, key), tag
+
+
+def observation_mismatch(model_labels, started_labels):
+    """what the awaitables OBSERVED (text handed to an FC evaluator, data seen by an evaluator) - independent of how the code groups its gathers:
+    for every (kind, key) the set of observed tags must be the set the model derives"""
+    exp, got = {}, {}
+    for l in model_labels:
+        k, t = _strip(l)
+        exp.setdefault(k, set()).add(t)
+    for l in started_labels:
+        k, t = _strip(l)
+        got.setdefault(k, set()).add(t)
+    for k in sorted(set(exp) & set(got)):
+        if exp[k] != got[k]:
+            return (f"the {k[0]} awaitable(s) for key {k[1]} observed {sorted(got[k])} (text handed to the evaluator / data of the evaluation), "
+                    f"each evaluation / data element having its own gives {sorted(exp[k])}")
+    return None
+
+
+def free_exploration(sc, res, rng, kind, ref, labels, case0, n):
+    """schedules chosen on the real pending sets (no model): results must still equal the no-yield result and every awaitable must observe its own context"""
+    import ahb
+    ahb.use_provider(sc.evaluators)
+
+    async def one(seq_rng):
+        GT.G.reset(auto=False, tag_text=sc.tag_text, tag_data=sc.tag_data)
+        task = asyncio.ensure_future(sc.factory())
+        order = []
+        for _ in range(10000):
+            await GT.quiesce()
+            pend = sorted(l for l, f in GT.G.pending.items() if not f.done())
+            if not pend:
+                break
+            l = seq_rng.choice(pend)
+            order.append(l)
+            GT.G.release(l)
+        await GT.quiesce()
+        if not task.done():
+            task.cancel()
+            return order, "stuck", None
+        try:
+            return order, "ok", task.result()
+        except BaseException as e:  # pylint:disable=broad-except
+            return order, "raised", e
+
+    async def run_all():
+        for i in range(n):
+            order, k, r = await one(random.Random(rng.random()))
+            res.count("evaluations")
+            res.count("schedules_explored_without_model")
+            got = sc.project(r) if k == "ok" else (f"{type(r).__name__}: {r}" if k == "raised" else "the call never finished")
+            if (k, got) != (kind, ref):
+                res.violation(f"scenario {sc.name} ({sc.describe}): under the completion order {order} the result is {got}, when nothing yields it is {ref}",
+                              dict(case0, kind="result", schedule=order))
+                return
+            p2 = observation_mismatch(labels, list(GT.G.started))
+            if p2:
+                res.violation(f"scenario {sc.name} ({sc.describe}), completion order {order}: {p2}", dict(case0, kind="observation", schedule=order))
+                return
 
     asyncio.run(run_all())
